@@ -199,6 +199,40 @@ func c09Vector(j *journal, v c09Vec, cnt *c09Counters) {
 	if d := shapeDiff(v.Go, t, "T"); d != "" {
 		j.fail("go-kind/"+v.Top, d, v)
 	}
+	c09Use(j, v, p)
+}
+
+// Parse is a function of its input: what was done with earlier results (the generators register
+// parsed types into a shared TypeSet, which renames structures on a name collision) must not change
+// what a later Parse of the same string returns.  Every parsed vector is used that way; the last 300
+// strings are parsed again from time to time and must print as before.
+var (
+	c09Set     = signature.NewTypeSet()
+	c09Ring    []c09Vec
+	c09Reparse int
+)
+
+func c09Use(j *journal, v c09Vec, p signature.Type) {
+	guarded(func() { p.RegisterTo(c09Set) })
+	c09Ring = append(c09Ring, v)
+	if len(c09Ring) < 300 {
+		return
+	}
+	for _, w := range c09Ring {
+		c09Reparse++
+		var printed string
+		var err error
+		if pn := guarded(func() {
+			var q signature.Type
+			q, err = signature.Parse(w.Sig)
+			if err == nil {
+				printed = q.Signature()
+			}
+		}); pn != "" || err != nil || printed != w.Sig {
+			j.fail("parse-depends-on-history/"+w.Top, fmt.Sprintf("after other types were parsed and registered, %q parses to %q (err %v %s)", w.Sig, printed, err, pn), w)
+		}
+	}
+	c09Ring = c09Ring[:0]
 }
 
 // fixedPoint checks the second sentence of the property on an accepted
